@@ -180,15 +180,16 @@ TRK_FN = ["Airplanes::action", "Airplanes::update_position", "AirplaneCoor::upda
 for _mask in range(8):
     for _w in range(3):
         add("trk_entry_m%d_k%d" % (_mask, _w), "rsadsb_common", T + "obl_entry_or_insert", args="%d, %d" % (_mask, _w),
-            props=["C12", "C01"], stubs=["fmt"], unwind=6, features=("alloc",), tier="quick" if (_mask, _w) in ((0, 0), (1, 0), (6, 0), (7, 1), (5, 1), (3, 2)) else "thorough",
-            bounded="3 fixed addresses, <= 3 records, light record contents (BTreeMap parametricity assumed beyond)",
+            props=["C12", "C01"], stubs=["fmt"], unwind=6, features=("alloc",), tier="quick" if _mask == 0 else "native-bounded",
+            bounded="3 fixed addresses, <= 3 records, light record contents (BTreeMap parametricity assumed beyond)" + ("" if _mask == 0 else "; executed natively (concrete case): CBMC runs out of memory on B-tree nodes holding 300-byte records"),
             domain="map holding subset %d of {A,B,C}, request for key %d" % (_mask, _w), functions=["Airplanes::entry_or_insert"], timeout=600)
 for _d in (0, 1):
     _n = "df18" if _d else "df17"
     _b = "true" if _d else "false"
-    add("trk_pos_" + _n, "rsadsb_common", T + "obl_action_position", args=_b, props=["C12", "C13", "C14", "C01"], stubs=["fmt", ENTRY, GP, HV], unwind=6,
-        features=("alloc",), domain="fully symbolic record x symbolic position report x receiver x range (non-NaN) x arbitrary pairing / distance results",
-        functions=TRK_FN, timeout=1200)
+    for _ts in ("false", "true"):
+        add("trk_pos_%s_track%s" % (_n, _ts[0]), "rsadsb_common", T + "obl_action_position", args=_b + ", " + _ts + ", 4", props=["C12", "C13", "C14", "C01"], stubs=["fmt", ENTRY, GP, HV], unwind=6,
+            features=("alloc",), domain="fully symbolic record (track %s) x symbolic position report x receiver x range (non-NaN) x arbitrary pairing / distance results" % ("empty" if _ts == "true" else "absent"),
+            functions=TRK_FN, timeout=1200, tier="quick" if (_d == 0 or _ts == "false") else "thorough")
     add("trk_ident_" + _n, "rsadsb_common", T + "obl_action_ident", args=_b, props=["C12", "C14", "C01"], stubs=["fmt", ENTRY], unwind=6,
         features=("alloc",), domain="fully symbolic record x identification report", functions=TRK_FN, timeout=900)
     add("trk_vel_" + _n, "rsadsb_common", T + "obl_action_velocity", args=_b, props=["C12", "C14", "C01"], stubs=["fmt", ENTRY, CALC], unwind=6,
@@ -201,7 +202,7 @@ add("trk_details", "rsadsb_common", T + "obl_details", props=["C14", "C01"], stu
     domain="fully symbolic record", functions=["Airplanes::aircraft_details", "AirplaneCoor::altitude"], timeout=900)
 for _mask, _pm in ((0, 0), (7, 0), (7, 7), (7, 5), (7, 2), (5, 4), (2, 2), (3, 1)):
     add("trk_allpos_%d_%d" % (_mask, _pm), "rsadsb_common", T + "obl_all_position", args="%d, %d" % (_mask, _pm), props=["C14", "C01"], stubs=["fmt"], unwind=6,
-        features=("alloc",), bounded="<= 3 records, concrete contents", tier="quick" if (_mask, _pm) in ((7, 5), (0, 0), (3, 1)) else "thorough",
+        features=("alloc",), bounded="<= 3 records, concrete contents; executed natively when the map is not empty (CBMC memory)", tier="quick" if _mask == 0 else "native-bounded",
         domain="map subset %d with positions on %d" % (_mask, _pm), functions=["Airplanes::all_position"], timeout=600)
 add("trk_incr_time", "rsadsb_common", T + "obl_incr_time", props=["C15", "C12", "C01"], stubs=["fmt", ENTRY, NOW], unwind=6, features=("std",),
     domain="fully symbolic record x all 2^32 clock values", functions=["Airplanes::incr_messages"], timeout=900)
@@ -220,7 +221,13 @@ def select(prop, tier):
     for o in OBL:
         if prop not in o["props"]:
             continue
+        if o["tier"] in ("native", "native-bounded"):
+            continue
         if tier == "quick" and o["tier"] != "quick":
             continue
         out.append(o)
     return out
+
+
+def native_bounded(prop):
+    return [o for o in OBL if prop in o["props"] and o["tier"] == "native-bounded"]
